@@ -64,7 +64,7 @@ impl<B: Flavor> Cobs<B> {
              obls=["C06.V.flavor.try_new"]),
         dict(kind="raw", name="<cobs-impl-mid>", text="}\nimpl<B: Flavor> Cobs<B> {\n"),
         dict(kind="fn", file=F, within=COBS_FLAVOR_IMPL, name="try_push", qual="postcard::ser::flavors::<impl Flavor for Cobs<B>>::try_push",
-             rewrites=[(r"self\.flav\[idx\] = mval;", "self.flav.set_at(idx, mval);", 0, 9)],  # D11
+             rewrites=[(r"self\.flav\[(\w+)\] = (\w+);", r"self.flav.set_at(\1, \2);", 0, 9)],  # D11
              sig="""        requires old(self).wf()
         ensures r is Ok ==> final(self).wf() && final(self).machine() == push(old(self).machine(), data),   // @obl:C06.V.flavor.try_push""",
              inserts=[("fn:start", "        proof { self.flav.lemma_size_bound(); }")],
@@ -72,12 +72,12 @@ impl<B: Flavor> Cobs<B> {
         # OPTIONAL: `impl Flavor for Cobs<B>` has no try_extend override on the pinned tree (the trait default == byte-wise pushes is used).
         # If an override appears it must satisfy the trait's contract: extending with `data` == pushing its bytes one by one.
         dict(kind="fn", file=F, within=COBS_FLAVOR_IMPL, name="try_extend", optional=True, qual="postcard::ser::flavors::<impl Flavor for Cobs<B>>::try_extend",
-             rewrites=[(r"self\.flav\[idx\] = mval;", "self.flav.set_at(idx, mval);", 0, 9)],
+             rewrites=[(r"self\.flav\[(\w+)\] = (\w+);", r"self.flav.set_at(\1, \2);", 0, 9)],
              sig="""        requires old(self).wf()
         ensures r is Ok ==> final(self).wf() && final(self).machine() == run(old(self).machine(), data@),   // @obl:C06.V.flavor.try_extend""",
              obls=["C06.V.flavor.try_extend"]),
         dict(kind="fn", file=F, within=COBS_FLAVOR_IMPL, name="finalize", qual="postcard::ser::flavors::<impl Flavor for Cobs<B>>::finalize",
-             rewrites=[(r"self\.flav\[idx\] = mval;", "self.flav.set_at(idx, mval);", 0, 9),   # D11
+             rewrites=[(r"self\.flav\[(\w+)\] = (\w+);", r"self.flav.set_at(\1, \2);", 0, 9),   # D11
                        (r"-> Result<Self::Output>", "-> Result<B::Output>", 1, 1),             # the method is extracted into an inherent impl
                        (r"fn finalize\(mut self\)", "fn finalize(self)", 1, 1),                # D13: `mut self` -> local `let mut this = self`
                        (r"\bself\.", "this.", 1, 99)],
